@@ -24,6 +24,7 @@ rundemo() {
     cd "$WT/repo"; return $rc
   else
     pkg=$(grep -m1 '^package ' "$DEMO" | awk '{print $2}')
+    pkg=${pkg%_test}
     dir=core; case "$pkg" in sys) dir=sys;; service) dir=service;; cron) dir=cron;; bolt) dir=storage/bolt;; main) dir=crolt;; esac
     [ -n "${DEMO_DIR:-}" ] && dir=$DEMO_DIR
     cp "$DEMO" "$dir/zz_seed_demo_test.go"
